@@ -57,6 +57,16 @@ def kernels_targets():
                   overrides={"rng.choice": Opaque("idx")},
                   flags={"ignore_return": True, "assume": {"beta == self.beta and n_samples is None": False}},
                   outputs={"": "w"}))
+    from translate import Tup
+    T.append(dict(name="current_target_efficiency_adaptive", module="samplers.smc.base", cls="SMCSampler",
+                  func="current_target_efficiency", inputs=[("e0", "S"), ("e1", "S"), ("rate", "S"), ("beta", "S")],
+                  self={"_adapative_target_efficiency": True, "_target_efficiency": Tup([S("e0"), S("e1")]),
+                        "target_efficiency_rate": S("rate")},
+                  params={"beta": S("beta")}, outputs={"": "return"}))
+    T.append(dict(name="current_target_efficiency_scalar", module="samplers.smc.base", cls="SMCSampler",
+                  func="current_target_efficiency", inputs=[("e", "S"), ("beta", "S")],
+                  self={"_adapative_target_efficiency": False, "_target_efficiency": S("e")},
+                  params={"beta": S("beta")}, outputs={"": "return"}))
     return T
 
 
